@@ -115,6 +115,8 @@ class ConfigList(ComposedNode, list):
         self._children = { ((idx+1) if idx >= index else idx): value for idx, value in self._children.items() }
         value = ComposedNode.ayns.set_child(self, index, value)
         list.insert(self, index, value)
+        # keep the child table in list order, it is what tree walks and evaluation iterate over
+        self._children = { idx: child for idx, child in enumerate(list.__iter__(self)) }
 
     if not utils.python_is_at_least(3, 7):
         # for python < 3.7 (i.e., 3.6 and older)
